@@ -77,7 +77,8 @@ MkMap(f, ps) == [k |-> "map", f |-> f, ps |-> ps]
 MkDict(ps)   == MkMap("dict", ps)
 MkSet(f, es) == [k |-> "set", f |-> f, es |-> es]
 
-AtomKinds   == {"none", "bool", "int", "float", "complex", "str", "bytes"}
+(* "bigint": an int beyond 32 bits; the one the universe uses (10 ** 400) is also beyond every float *)
+AtomKinds   == {"none", "bool", "int", "float", "complex", "str", "bytes", "bigint"}
 IsAtom(v)   == v.k \in AtomKinds
 IsSeqV(v)   == v.k = "seq"
 IsMapV(v)   == v.k = "map"
@@ -98,7 +99,7 @@ NumNum(v) ==   \* the "num" of a real-valued numeric value
     [] v.k = "float" -> [q |-> v.q, sp |-> v.sp]
     [] v.k = "frac"  -> Fin(v.q)
     [] v.k = "dec"   -> [q |-> v.q, sp |-> v.sp]
-IsReal(v)    == v.k \in {"bool", "int", "float", "frac", "dec"}
+IsReal(v)    == v.k \in {"bool", "int", "float", "frac", "dec"}     \* (bigint: conditions are left open, see Holds)
 IsNumeric(v) == IsReal(v) \/ v.k = "complex"
 
 (* equality of two nums as Python compares floats: nan is unequal to everything, -0.0 == 0.0 *)
